@@ -423,6 +423,10 @@ func c13r(c *ctx) {
 		{{Op: 2, Fin: false, Pay: []byte("ab")}, {Op: 9, Fin: true, Pay: []byte("pi")}, {Op: 0, Fin: true, Pay: []byte("cd")}},
 		{{Op: 2, Fin: false, Pay: []byte("ab")}, {Op: 10, Fin: true, Pay: []byte{}}, {Op: 8, Fin: true, Pay: closePay(2)}, {Op: 0, Fin: true, Pay: []byte("cd")}},
 		{{Op: 9, Fin: true, Pay: []byte("pi")}, {Op: 1, Fin: true, Pay: []byte("abc")}},
+		// control frames without payload between messages (not read by the caller in half of the runs)
+		{{Op: 1, Fin: true, Pay: []byte("abc")}, {Op: 9, Fin: true, Pay: []byte{}}, {Op: 2, Fin: true, Pay: []byte("zz")}},
+		{{Op: 2, Fin: false, Pay: []byte("ab")}, {Op: 0, Fin: true, Pay: []byte{}}, {Op: 10, Fin: true, Pay: []byte{}}, {Op: 9, Fin: true, Pay: []byte{}}, {Op: 1, Fin: true, Pay: []byte("zz")}},
+		{{Op: 10, Fin: true, Pay: []byte{}}, {Op: 1, Fin: true, Pay: []byte{}}, {Op: 9, Fin: true, Pay: []byte{}}, {Op: 2, Fin: true, Pay: []byte{}}},
 	}
 	rot := 0
 	for si, base := range shapes {
@@ -443,6 +447,7 @@ func c13r(c *ctx) {
 							}
 							sc := mkScenario(key, side, v, fs, rchunks[rot%len(rchunks)], rbufs[(rot/5)%len(rbufs)])
 							sc.Ext, sc.Extended = true, extended
+							sc.SkipEmptyCtl = rot%2 == 0
 							t.run(sc)
 						}
 					}
